@@ -9,8 +9,41 @@ pub fn eval_line(line: &str) -> String {
     let t: Vec<&str> = line.split(' ').filter(|s| !s.is_empty()).collect();
     match catch_unwind(AssertUnwindSafe(|| eval(&t))) {
         Ok(s) => s,
+        // surface-sweep lines name the panic site (known findings are identified by call site)
+        Err(_) if t.first().is_some_and(|o| o.starts_with("sw_")) => {
+            format!("panic@{}", LAST_PANIC.with(|p| p.borrow().clone()))
+        }
         Err(_) => "panic".to_string(),
     }
+}
+
+thread_local! {
+    pub static LAST_PANIC: std::cell::RefCell<String> = const { std::cell::RefCell::new(String::new()) };
+}
+
+/// Panic hook: remember `<crate dir or src>/<file>:<line>` of the panic site for the current thread.
+pub fn install_panic_hook(verbose: bool) {
+    std::panic::set_hook(Box::new(move |info| {
+        if verbose {
+            eprintln!("PANIC {info}");
+        }
+        let loc = info
+            .location()
+            .map(|l| {
+                let f = l.file();
+                let short = match f.rfind("/src/") {
+                    Some(k) => {
+                        let head = &f[..k];
+                        let krate = head.rsplit('/').next().unwrap_or("");
+                        format!("{}{}", krate, &f[k..])
+                    }
+                    None => f.to_string(),
+                };
+                format!("{}:{}", short, l.line())
+            })
+            .unwrap_or_else(|| "?".to_string());
+        LAST_PANIC.with(|p| *p.borrow_mut() = loc);
+    }));
 }
 
 pub fn rounding_options(
